@@ -5,6 +5,7 @@
    open/close and sync.RWMutex themselves are trusted (design/C17.md). *)
 From Coq Require Import List NArith Bool Arith.
 From Storage Require Import Base.Bytes Db.RwLock Db.RwLockProofs Db.Content Db.Timeline Db.Snapshot Db.SnapshotProofs.
+From Storage Require Import Db.Reader Db.ReaderProofs Db.RestoreX Db.RestoreXProofs Db.RestoreJoin Db.RestoreJoinProofs.
 Import ListNotations.
 
 (* For every database state d0 and every history  pre ; snapshot (any of Snapshot, SnapshotInTx in
@@ -125,3 +126,100 @@ Theorem no_deadlock : forall (p : bool) (ths : list thread) (sched : list nat),
   forallb finished (threads s) = true \/ exists i, RwLock.step s i <> s.
 Proof. exact no_deadlock_lemma. Qed.
 Print Assumptions no_deadlock.
+
+(* ---------------------------------------------------------------------------------------------
+   RestoreFromReader fed by ANY behaviour the io.Reader contract allows (Db/Reader.v).
+
+   What the copy loop of persistSnapshot puts into the file that replaces the database is a
+   function of the byte sequence and of the position at which the reader fails (if it does) -
+   not of the sizes of the reads, of zero-length reads, of the buffers offered, nor of whether
+   io.EOF arrives with the last bytes or in a separate call. *)
+Theorem copy_is_concatenation : forall (A : Type) (sc : script) (caps : nat -> nat) (bs : list A),
+  copy sc caps bs = (firstn (limit sc (length bs)) bs, if failing sc (length bs) then CFail else COk).
+Proof. exact (@copy_spec). Qed.
+Print Assumptions copy_is_concatenation.
+
+(* over chunkings: any two ways of cutting one byte sequence into reads give the same file, the
+   sequence itself *)
+Theorem copy_chunkings_agree : forall (A : Type) (bs : list A) (pieces1 pieces2 : list (list A)) (eofd1 eofd2 : bool)
+    (caps1 caps2 : nat -> nat),
+  chunking bs pieces1 -> chunking bs pieces2 ->
+  copy (script_of_pieces pieces1 eofd1) caps1 bs = copy (script_of_pieces pieces2 eofd2) caps2 bs
+  /\ copy (script_of_pieces pieces1 eofd1) caps1 bs = (bs, COk).
+Proof. exact (@copy_chunkings_agree_lemma). Qed.
+Print Assumptions copy_chunkings_agree.
+
+(* hence the database after RestoreFromReader does not depend on the reader's behaviour: two
+   readers over the same file that do not fail leave the same state and observations ... *)
+Theorem restore_reader_independent : forall (caps1 caps2 : nat -> nat) (x : xdb) (k len : nat) (sc1 sc2 : script),
+  failing sc1 len = false -> failing sc2 len = false ->
+  xstep caps1 x (XRestoreReader k len sc1) = xstep caps2 x (XRestoreReader k len sc2).
+Proof. exact restore_reader_independent_lemma. Qed.
+Print Assumptions restore_reader_independent.
+
+(* ... namely those of RestoreSnapshot(bytes of that file) *)
+Theorem restore_reader_is_restore_snapshot : forall (caps caps' : nat -> nat) (x : xdb) (k len : nat) (sc : script),
+  failing sc len = false ->
+  xstep caps x (XRestoreReader k len sc) = xstep caps' x (XBase (ORestore k)).
+Proof. exact xstep_reader_ok. Qed.
+Print Assumptions restore_reader_is_restore_snapshot.
+
+(* a reader that fails after any number of bytes - also right after the last one, instead of
+   EOF -: the restore is refused and database, files, listeners and counters are unchanged *)
+Theorem restore_reader_error_changes_nothing : forall (caps : nat -> nat) (x : xdb) (k len : nat) (sc : script),
+  failing sc len = true ->
+  fst (xstep caps x (XRestoreReader k len sc)) = x
+  /\ (nth_error (files (base x)) k <> None -> snd (xstep caps x (XRestoreReader k len sc)) = XoRefused).
+Proof. exact xstep_reader_refused_lemma. Qed.
+Print Assumptions restore_reader_error_changes_nothing.
+
+(* the property itself for histories whose restore goes through a reader (and whose other
+   restores may, too; listeners that read the database may be registered anywhere): content and
+   reported snapshot id are those of restore_reproduces_snapshot for the plain history *)
+Theorem restore_from_reader_reproduces_snapshot : forall (caps : nat -> nat) (x0 : xdb) (pre : list xop)
+    (k : snap_kind) (post : list xop) (len : nat) (sc : script),
+  forallb readonly (bodies x0) = true -> forallb adds_readonly pre = true -> forallb adds_readonly post = true ->
+  failing sc len = false ->
+  let at_snapshot := live (run (base x0) (flat_map erase pre)) in
+  let after := live (base (xrestored caps x0 pre k post len sc)) in
+  let id := snap_id (base x0) (flat_map erase pre) k in
+  after = mark id at_snapshot
+  /\ snd (step (base (xrestored caps x0 pre k post len sc)) OGetSnapshotId) = ObSnapId (Some id).
+Proof. exact restore_from_reader_reproduces_snapshot_lemma. Qed.
+Print Assumptions restore_from_reader_reproduces_snapshot.
+
+(* ---------------------------------------------------------------------------------------------
+   Restore listeners that use the database (read transaction, GetSnapshotId, GetTimelineId, a
+   write).  Whatever they do, every path outside the lsn bucket they write to, the timeline id,
+   the reset flag and the meta bucket's own entry reads as in the restored file; all of them run. *)
+Theorem restore_listeners_frame : forall (x : xdb) (c : content) (p : path),
+  listener_touched p = false -> lookup p (live (base (fst (xrestore x c)))) = lookup p c.
+Proof. exact xrestore_frame_lemma. Qed.
+Print Assumptions restore_listeners_frame.
+
+Theorem restore_runs_every_listener : forall (bs : list lbody) (d : db), length (snd (fire d bs)) = length bs.
+Proof. exact fire_length. Qed.
+Print Assumptions restore_runs_every_listener.
+
+(* Listeners are started when the new file is open and the restore does not wait for them: with
+   any number of transaction threads, restorers and listener threads (transactions that cannot
+   start before some restore reopened the database), either lock preference and every schedule,
+   some thread can move until all have finished ... *)
+Theorem listeners_no_deadlock : forall (p : bool) (ths : list thread) (ls : list nat) (sched : list nat),
+  Forall initial_thread ths -> forallb no_recursion ths = true -> existsb is_restorer ths = true ->
+  let s := jrun false ls (init p ths) sched in
+  forallb finished (threads s) = true \/ exists i, jstep false ls s i <> s.
+Proof. exact listeners_no_deadlock_lemma. Qed.
+Print Assumptions listeners_no_deadlock.
+
+(* ... and a listener's transaction sees one open handle, like every other transaction *)
+Theorem listeners_see_one_handle : forall (p : bool) (ths : list thread) (ls : list nat) (sched : list nat),
+  Forall initial_thread ths ->
+  let s := jrun false ls (init p ths) sched in
+  forall i pc plan inner b seen,
+    nth_error (threads s) i = Some (Tx pc plan inner b seen) ->
+    Forall (eq b) seen
+    /\ (seen <> [] -> b <> None)
+    /\ (pc = TxInTx \/ pc = TxCommitted -> b = cur s /\ cur s <> None).
+Proof. exact listeners_see_one_handle_lemma. Qed.
+Print Assumptions listeners_see_one_handle.
